@@ -23,8 +23,7 @@ func init() {
 		{"disc.encodeTagAndMembershipList", "bounds", "make(slice)[", "buffer allocated with 33+2·len(peers) bytes in the same function and filled from offset 33 with stride 2, one step per peer"},
 		{"(*disc.Member).handleResponse", "block", "", "the channel has len(Membership)−1 slots and at most one send per authenticated member happens (LoadOrStore guard C07.G3, tag ownership C07.G1)"},
 		// --- msg
-		{"(*msg.Box).maybeGC", "divide", "", "GCSweep is local configuration; a zero value is a configuration error surfaced by startClock at first use, not network input"},
-		{"(*msg.Box).startClock", "divide", "", "GCSweep is local configuration; a zero value is a configuration error surfaced at first use, not network input"},
+		{"msg.", "divide", "(‹*msg.Box›.GCExpire / ‹*msg.Box›.GCSweep)", "GCSweep is local configuration; a zero value is a configuration error surfaced by startClock at first use, not network input"},
 		{"(*msg.Box).startClock", "panic", "\"GC GCExpire", "configuration check at first use (caller contract), independent of received data"},
 		// --- rbc
 		{"(*rbc.Receiver).Receive", "panic", "\"received ack from myself", "the transport-authenticated source is never this node's own id (C16: a node does not connect to itself; attribution only to registered peers)"},
